@@ -88,7 +88,7 @@ let msg_of (w : string list) : msg =
     { m_extra = extra_of x;
       m_body = BAcc { ac_new = b nw; ac_login = b lg; ac_tmp = tmp_of tmp; ac_create = create_of cr; ac_target = optn tg;
                       ac_state = b st; ac_update = reply_of_string up } }
-  | x :: k :: [snd] -> { m_extra = extra_of x; m_body = BTopic (tkind_of k, optn snd) }
+  | x :: k :: [snd; lo] -> { m_extra = extra_of x; m_body = BTopic (tkind_of k, optn snd, b lo) }
   | _ -> failwith ("msg " ^ String.concat " " w)
 
 let rec split_msgs (w : string list) (cur : string list) (acc : string list list) : string list list =
@@ -101,9 +101,21 @@ let handle (w : string list) : string =
   match w with
   | "S" :: v :: u :: l :: rest ->
     let st = ref { ver = n v; uid = n u; lvl = n l } in
+    let created = ref 0 in
     let outs = List.map (fun mw ->
-        let m = msg_of mw in
+        let m0 = msg_of mw in
+        (* accounts created in this scenario are numbered 101, 102, ... in creation order *)
+        let fresh_uid = n_of_int (101 + !created) in
+        let (m, creating) = match m0.m_body with
+          | BAcc a when a.ac_new ->
+            (match a.ac_create with
+             | CrCreated (_, cl, nl, mi) ->
+               ({ m0 with m_body = BAcc { a with ac_create = CrCreated (fresh_uid, cl, nl, mi) } }, true)
+             | _ -> (m0, false))
+          | _ -> (m0, false) in
         let r = dispatch spec_table !st m in
+        if creating && (match r.r_replies with [ROk200] | [RCreated201] | [RValidate300] -> true | _ -> false)
+        then incr created;
         st := r.r_state;
         let call = match r.r_call with
           | None -> "-"
